@@ -94,6 +94,18 @@ def _desc(fmt, style, edd, **kw):
     return body
 
 
+def _optdflt(fmt, style, edd, **kw):
+    """Optional[...] parameters with FALSY and non-falsy defaults (0, False, '', 0.0 are easy to lose behind truthiness tests)"""
+    def body(i, b, e):
+        return run(fmt, mk_ir([("a", {"typ": "Optional[int]", "doc": "first arg", "default": i}),
+                               ("b", {"typ": "Optional[bool]", "doc": "second arg", "default": b}),
+                               ("c", {"typ": "Optional[str]", "doc": "third arg", "default": "x" if e else "yz"}),
+                               ("d", {"typ": "Optional[float]", "doc": "fourth arg", "default": 0.0 if e else 1.5})]),
+                   style=style, emit_default_doc=edd, **kw)
+
+    return body
+
+
 def _nodflt(fmt, style, edd, **kw):
     def body(k):
         t = ("int", "str", "float", "bool", "Optional[int]")[0]
@@ -126,6 +138,8 @@ for _fmt, _kw in VARIANTS:
                bound="a:int with default %s, b:bool with default True/False" % ("-20..20" if not _edd else "-3..3"))(_intdflt(_fmt, _style, _edd, **_kw))
             ob("C02", "P1.desc.%s" % _t, {"c0": PR, "c1": PR}, pre="c0 != 47 and c1 != 47", tier=_tier if not _edd else "thorough", T=300, funcs=FORMAT_FUNCS[_fmt],
                assumes=[ADHOC_SHIMS_DOC], bound="description 'The '+XY and prose 'Head '+Y+'.' for EVERY printable X, Y except '/'")(_desc(_fmt, _style, _edd, **_kw))
+            ob("C02", "P1.optdflt.%s" % _t, {"i": R(-1, 1), "b": BOOL, "e": BOOL}, tier=_tier, T=300, funcs=FORMAT_FUNCS[_fmt], assumes=[ADHOC_SHIMS_DOC],
+               bound="Optional[int]=-1..1, Optional[bool]=True/False, Optional[str], Optional[float]=0.0/1.5 (falsy and truthy defaults)")(_optdflt(_fmt, _style, _edd, **_kw))
             if _fmt != "argparse":
                 ob("C02", "P1.nodflt.%s" % _t, {"k": R(0, 4)}, tier=_tier, T=200, funcs=FORMAT_FUNCS[_fmt], assumes=[ADHOC_SHIMS_DOC],
                    bound="first parameter WITHOUT default of type int/str/float/bool/Optional[int], second with default, return entry int")(_nodflt(_fmt, _style, _edd, **_kw))
